@@ -75,6 +75,9 @@ def patch_iter_utils():
         iter_utils.MultiplexIterator.maybe_stop,
         iter_utils.piter_multiplex, iter_utils.piter_fn,
     ]
+    # Helpers that a tree may split off the non-blocking operations (none at present).
+    fns += [v for k, v in vars(iter_utils.IteratorQueue).items()
+            if callable(v) and k.lstrip('_') in ('get_nowait', 'put_nowait') and v not in fns]
     n_codes = core.install_line_yield(fns)
     _patched = True
   return took, n_codes
@@ -93,6 +96,32 @@ def make_raw_queue(flavour, cap):
   if flavour == 'lifo_bad':  # not used by checks; for validating the monitor
     return _queue.LifoQueue(maxsize=cap)
   raise ValueError(flavour)
+
+
+class RawTrace:
+  """Pass-through recorder around the raw buffer: who enqueued / dequeued which element.
+
+  Recording at the buffer itself (not at a queue method) attributes an element also when
+  the method that popped it raises afterwards, whatever helper it was called through.
+  """
+
+  def __init__(self, raw, log, me):
+    self.raw, self._log, self._me = raw, log, me
+
+  def get_nowait(self):
+    value = self.raw.get_nowait()
+    self._log.append(('deq', self._me(), value))
+    return value
+
+  def put_nowait(self, value):
+    self.raw.put_nowait(value)
+    self._log.append(('enq', self._me(), value))
+
+  def empty(self):
+    return self.raw.empty()
+
+  def __getattr__(self, name):
+    return getattr(self.raw, name)
 
 
 def run_queue_case(case, watchdog_s=20.0):
@@ -117,7 +146,13 @@ def run_queue_case(case, watchdog_s=20.0):
       ignore_error=case.get('ignore_error', False))
   log = []
   info['queue'] = q
-  state = {'produced': 0, 'consumers_ended': 0, 'producers_ended': 0}
+  state = {'produced': 0, 'consumers_ended': 0, 'producers_ended': 0,
+           'get_nowait_calls': 0, 'put_nowait_calls': 0, 'empty_seen': 0, 'full_seen': 0,
+           'poll_bound_hit': 0}
+  info['state'] = state
+  # Polling workloads (see poll_variants): a side that uses the public non-blocking
+  # operation in a loop instead of the blocking one.
+  max_polls = case.get('max_polls', 400)
   # Timing scenarios (see timing_variants): threads that sleep, consumers that
   # retry after a TimeoutError, and pass-through tracing of the queue's steps.
   pnaps, cnaps = case.get('pnaps'), case.get('cnaps')
@@ -136,7 +171,7 @@ def run_queue_case(case, watchdog_s=20.0):
     core.ACTIVE.block(lambda: False, f'nap({me()})', timed=True)
 
   if case.get('trace_queue'):
-    orig_put, orig_put_nowait, orig_get_nowait = q.put, q.put_nowait, q.get_nowait
+    orig_put = q.put
 
     def traced_put(value):
       try:
@@ -145,16 +180,8 @@ def run_queue_case(case, watchdog_s=20.0):
         log.append(('put_timeout', me(), value))
         raise
 
-    def traced_put_nowait(value):
-      orig_put_nowait(value)
-      log.append(('enq', me(), value))
-
-    def traced_get_nowait():
-      value = orig_get_nowait()
-      log.append(('deq', me(), value))
-      return value
-
-    q.put, q.put_nowait, q.get_nowait = traced_put, traced_put_nowait, traced_get_nowait
+    q.put = traced_put
+    q._queue = RawTrace(q._queue, log, me)  # pylint: disable=protected-access
 
   def gen(p):
     n = lens[p]
@@ -191,6 +218,59 @@ def run_queue_case(case, watchdog_s=20.0):
     finally:
       state['producers_ended'] += 1
 
+  def raw_full():
+    full = getattr(q._queue, 'full', None)  # pylint: disable=protected-access
+    return bool(full()) if full is not None else False   # SimpleQueue: unbounded
+
+  def close_stream():
+    # Producers that put_nowait() are not registered enqueuers: the stream is closed
+    # through the public maybe_stop() once all of them are done ('after_drain': only once
+    # the buffer was emptied by the consumers, i.e. the stop never has to wake a consumer
+    # for an element that is already queued).
+    if case.get('close') == 'after_drain':
+      log.append(('close_wait',))
+      core.ACTIVE.block(lambda: q._queue.empty(), 'closer.wait_drained')  # pylint: disable=protected-access
+    log.append(('close',))
+    q.maybe_stop()
+
+  def poll_producer(p):
+    try:
+      for i in range(lens[p]):
+        log.append(('produce', p, i))
+        state['produced'] += 1
+        core.ACTIVE.yield_point('user-gen')
+        polls = 0
+        while True:
+          polls += 1
+          if polls > max_polls:
+            state['poll_bound_hit'] += 1
+            log.append(('prod_quit', p, i))
+            return
+          state['put_nowait_calls'] += 1
+          try:
+            q.put_nowait((p, i))
+            break
+          except (_queue.Full, asyncio.QueueFull):
+            # 'try again': re-polls once a put_nowait() could succeed (a pure spinner
+            # would starve everyone under PCT; the result of the poll cannot change
+            # before that).
+            state['full_seen'] += 1
+            core.ACTIVE.yield_point('spin')
+            core.ACTIVE.block(lambda: not raw_full(), f'poll.retry(P{p})')
+      log.append(('prod_return', p))
+    except core.SchedAbort:
+      raise
+    except BaseException as e:  # pylint: disable=broad-exception-caught
+      log.append(('prod_raise', p, type(e).__name__, str(e)[:80]))
+    state['producers_ended'] += 1
+    if state['producers_ended'] == P:
+      try:
+        close_stream()
+      except core.SchedAbort:
+        raise
+      except BaseException as e:  # pylint: disable=broad-exception-caught
+        log.append(('stop_raised', type(e).__name__, str(e)[:80]))
+
   def check_invariants(where):
     if stop:
       # A stop is a cancellation: an element put by a producer that was already
@@ -210,6 +290,7 @@ def run_queue_case(case, watchdog_s=20.0):
     max_ops = case.get('consumer_max_ops')
     ops = 0
     retries = 0
+    polls = 0
 
     def dequeue(m):
       # One dequeue operation of a retrying consumer (timing scenarios).
@@ -275,6 +356,28 @@ def run_queue_case(case, watchdog_s=20.0):
             core.ACTIVE.block(
                 lambda: not q._queue.empty() or q.enqueue_done or q.exhausted,  # pylint: disable=protected-access
                 'consumer.spin')
+        elif m == 'poll':
+          # A consumer that only ever calls the public get_nowait(): queue.Empty means
+          # 'try again'.  It re-polls once the outcome of a poll can have changed
+          # (get_nowait() raises Empty exactly while the buffer is empty and the queue is
+          # neither done nor exhausted), so it never spins and never masks a verdict.
+          polls += 1
+          if polls > max_polls:
+            state['poll_bound_hit'] += 1
+            log.append(('end', c, 'quit', ()))
+            return
+          state['get_nowait_calls'] += 1
+          try:
+            vals = [q.get_nowait()]
+          except (_queue.Empty, asyncio.QueueEmpty) as e:
+            if e is q.exception:
+              raise
+            vals = []
+            state['empty_seen'] += 1
+            core.ACTIVE.yield_point('spin')
+            core.ACTIVE.block(
+                lambda: not q._queue.empty() or q.enqueue_done or q.exhausted,  # pylint: disable=protected-access
+                f'poll.retry(C{c})')
         elif m.startswith('batch_nb:'):
           vals = q.get_batch(int(m.split(':')[1]), block=False)
         elif m.startswith('batch_b:'):
@@ -287,7 +390,7 @@ def run_queue_case(case, watchdog_s=20.0):
           vals = [next(it)]
         else:
           raise ValueError(m)
-        if not vals and was_exhausted and m != 'nowait':
+        if not vals and was_exhausted and m not in ('nowait', 'poll'):
           # Once the queue is exhausted every dequeue call ends the stream (or
           # raises the recorded exception); an empty batch is neither.
           log.append(('end', c, 'exc', 'EmptyBatchAfterExhausted', m))
@@ -321,7 +424,8 @@ def run_queue_case(case, watchdog_s=20.0):
 
   modes = case['modes']
   for p in range(P):
-    sched.spawn(producer, name=f'P{p}', args=(p,))
+    sched.spawn(poll_producer if case.get('prod_kind') == 'poll' else producer,
+                name=f'P{p}', args=(p,))
   for c in range(C):
     sched.spawn(consumer, name=f'C{c}', args=(c, modes[c % len(modes)]))
   if stop:
@@ -364,7 +468,12 @@ def analyse(case, sched, log):
   if errs:
     out.append(('thread_error', {k: repr(v) for k, v in errs.items()}))
   quitting = case.get('consumer_max_ops') is not None
+  # Producers that put_nowait() are not enqueuers: they have no way to return a value.
+  want_returned = [] if case.get('prod_kind') == 'poll' else sorted(f'r{p}' for p in range(P))
   if not fault and not stop:
+    raised = [e for e in log if e[0] == 'stop_raised']
+    if raised:
+      out.append(('stop_raised', raised[0][1:]))
     expected_all = {(p, i) for p in range(P) for i in range(lens[p])}
     if not quitting and set(ids) != expected_all:
       out.append(('lost', sorted(expected_all - set(ids))[:5]))
@@ -376,7 +485,7 @@ def analyse(case, sched, log):
         pass
       elif e[2] != 'stop':
         out.append(('consumer_bad_end', e[1:]))
-      elif sorted(map(str, e[3])) != sorted(f'r{p}' for p in range(P)):
+      elif sorted(map(str, e[3])) != want_returned:
         out.append(('returned_values', {'consumer': c, 'got': list(e[3])}))
     for p in range(P):
       if ('prod_return', p) not in log:
@@ -524,6 +633,7 @@ def analyse_timing(case, sched, log, info):
   q = info['queue']
   residual = []
   raw = q._queue  # pylint: disable=protected-access
+  raw = getattr(raw, 'raw', raw)   # not through the recorder: this is the harness draining
   while True:
     try:
       residual.append(tuple(raw.get_nowait()))
@@ -590,3 +700,179 @@ def classify_timing(case, kind, detail):
       and all(w.startswith('dequeued_by_get_batch_that_timed_out:batch_b') for w in whys)):
     return MECH_GET_BATCH_TIMEOUT_DROP
   return None
+
+
+# -- polling workloads: one side uses the public non-blocking operation -------------
+
+POLL_CLASSES = ('consumer_polls', 'consumer_polls_any_cap', 'producer_polls', 'both_poll')
+MECH_GET_NOWAIT_UNHELD = 'get-nowait-end-detection-notifies-unheld-condition'
+MECH_NOWAIT_NO_HANDSHAKE = 'nowait-ops-skip-condition-handshake:'
+_UNHELD_TEXT = 'cannot notify on un-acquired lock'
+_BLOCKING_MODES = ['get', 'get', 'batch_nb:1', 'batch_nb:2', 'batch_b:2', 'batch_b:3', 'batch0',
+                   'iter', 'mixed']
+
+
+def poll_variants(cfg, rng):
+  """Polling variants of one configuration (see C04.gen_config).
+
+  consumer_polls: bounded buffer (1-3), producers block in enqueue_from_iterator -> put(),
+    at least one of them has more elements than the buffer holds; one or all consumers only
+    call get_nowait() (queue.Empty = try again), the others keep their blocking mode.
+  consumer_polls_any_cap: the configuration as generated (also unbounded), one or all
+    consumers poll.
+  producer_polls: all producers call put_nowait() (queue.Full = try again) and are not
+    registered enqueuers; the last one to finish closes the stream with maybe_stop(),
+    either at once or only after the consumers emptied the buffer; consumers block.
+  both_poll: both of the above.
+  Oracle as for every fault-free case (qwork.analyse) + exact deadlock detection.
+  """
+  P, C = cfg['P'], cfg['C']
+  base = dict(cfg, fault=None, stop=None, trace_queue=True, max_polls=400)
+  out = []
+
+  def with_pollers(modes):
+    modes = [m if m != 'poll' else 'get' for m in modes]
+    modes = (modes * C)[:C]
+    if rng.random() < 0.5:
+      return ['poll'] * C
+    modes[rng.randrange(C)] = 'poll'
+    return modes
+
+  # -- blocked producer, polling consumer ----------------------------------------------
+  cap = cfg['cap'] or rng.choice([1, 2, 3])
+  flavour = cfg['flavour'] if cfg['cap'] else rng.choice(['default', 'queue', 'asyncio'])
+  lens = list(cfg['lens'])
+  one = rng.randrange(P)
+  lens[one] = max(lens[one], cap + rng.randint(1, 3))   # at least one put() must block
+  out.append(dict(base, pollcls='consumer_polls', cap=cap, flavour=flavour, lens=lens,
+                  modes=with_pollers(cfg['modes'])))
+  out.append(dict(base, pollcls='consumer_polls_any_cap', modes=with_pollers(cfg['modes'])))
+  # -- blocked consumer, polling producer ----------------------------------------------
+  lens = list(cfg['lens'])
+  if not any(lens):
+    lens[rng.randrange(P)] = rng.randint(1, 3)
+  blocking = [m if m != 'poll' else rng.choice(_BLOCKING_MODES) for m in (cfg['modes'] * C)[:C]]
+  close = rng.choice(['after_drain', 'after_drain', 'immediately'])
+  out.append(dict(base, pollcls='producer_polls', prod_kind='poll', preset=False, lens=lens,
+                  modes=blocking, close=close))
+  out.append(dict(base, pollcls='both_poll', prod_kind='poll', preset=False, lens=lens,
+                  modes=with_pollers(blocking),
+                  close=rng.choice(['after_drain', 'immediately'])))
+  return out
+
+
+def _occupancy(log, upto):
+  n = 0
+  for e in log[:upto]:
+    if e[0] == 'enq':
+      n += 1
+    elif e[0] == 'deq':
+      n -= 1
+  return n
+
+
+def _in_queue_method(entry, names):
+  """Is the witness entry a thread asleep on a condition inside one of the queue methods?"""
+  if not str(entry.get('blocked_on') or '').startswith('Condition'):
+    return False
+  frames = [s.split(':')[-1] for s in (entry.get('stack') or []) if s.startswith('iter_utils.py')]
+  return bool(frames) and frames[-1] in names
+
+
+def poll_evidence(case, sched, log):
+  """What the record of a polling case says, independent of the verdict.
+
+  unheld:       poll consumers whose direct get_nowait() raised the condition's
+                'cannot notify on un-acquired lock' (+ the elements those calls had popped).
+  starved_put:  a blocking producer asleep in put() (deadlock witness) or timed out in put()
+                while the buffer had room, the last element having been taken out by a poll
+                consumer's direct get_nowait().
+  starved_get:  a blocking consumer asleep in get()/get_batch() (deadlock witness) or timed out
+                there while the buffer held an element put by a producer's direct put_nowait().
+  """
+  C, cap = case['C'], case['cap']
+  modes = [case['modes'][c % len(case['modes'])] for c in range(C)]
+  ev = {'unheld': [], 'popped_by_unheld': [], 'starved_put': None, 'starved_get': None}
+  for n, e in enumerate(log):
+    if (e[0] == 'end' and e[2] == 'exc' and modes[e[1]] == 'poll' and e[3] == 'RuntimeError'
+        and _UNHELD_TEXT in e[4]):
+      c = e[1]
+      ev['unheld'].append(c)
+      mine = [x for x in log[:n] if (x[0] == 'deq' and x[1] == f'C{c}')
+              or (x[0] == 'recv' and x[1] == c)]
+      if mine and mine[-1][0] == 'deq':
+        ev['popped_by_unheld'].append(tuple(mine[-1][2]))
+  witness = sched.witness if sched.status == 'deadlock' and isinstance(sched.witness, dict) else {}
+
+  def last_actor(kind, upto):
+    for e in reversed(log[:upto]):
+      if e[0] == kind:
+        return e[1]
+    return None
+
+  def polling_consumer(name):
+    return bool(name) and name[0] == 'C' and name[1:].isdigit() and modes[int(name[1:])] == 'poll'
+
+  if case.get('prod_kind') != 'poll' and cap and 'poll' in modes:
+    moments = [(len(log), name, 'asleep in put()') for name, v in sorted(witness.items())
+               if name[0] == 'P' and _in_queue_method(v, ('put',))]
+    moments += [(n, e[1], 'put() timed out') for n, e in enumerate(log) if e[0] == 'put_timeout']
+    for n, name, what in moments:
+      occ, by = _occupancy(log, n), last_actor('deq', n)
+      if occ < cap and polling_consumer(by):
+        ev['starved_put'] = {'producer': name, 'what': what, 'buffered': occ, 'capacity': cap,
+                             'last_dequeue_by': f'{by} (direct get_nowait)'}
+        break
+  if case.get('prod_kind') == 'poll':
+    moments = [(len(log), name, 'asleep in get()/get_batch()')
+               for name, v in sorted(witness.items())
+               if name[0] == 'C' and not polling_consumer(name)
+               and _in_queue_method(v, ('get', 'get_batch'))]
+    moments += [(n, f'C{e[1]}', 'dequeue timed out') for n, e in enumerate(log)
+                if e[0] == 'end' and e[2] == 'exc' and e[3] == 'TimeoutError'
+                and modes[e[1]] != 'poll']
+    for n, name, what in moments:
+      occ, by = _occupancy(log, n), last_actor('enq', n)
+      if occ > 0 and by and by[0] == 'P':
+        ev['starved_get'] = {'consumer': name, 'what': what, 'buffered': occ,
+                             'last_enqueue_by': f'{by} (direct put_nowait)'}
+        break
+  return ev
+
+
+def classify_poll(case, kind, detail, ev, lost):
+  """Stable key of a root cause: input class of the case + recorded evidence."""
+  generic = f'{case["pollcls"]}:queue-{kind}{deadlock_sites(kind, detail)}'
+  handshake = None
+  if ev['starved_put']:
+    handshake = MECH_NOWAIT_NO_HANDSHAKE + 'get_nowait'
+  elif ev['starved_get']:
+    handshake = MECH_NOWAIT_NO_HANDSHAKE + 'put_nowait'
+  if kind == 'deadlock':
+    return handshake or generic
+  if kind == 'consumer_bad_end':
+    c, exc = detail[0], detail[2]
+    if c in ev['unheld']:
+      return MECH_GET_NOWAIT_UNHELD
+    # the spurious timeout of the starved peer, as every consumer gets to see it
+    if exc == 'TimeoutError' and handshake:
+      return handshake
+    return generic
+  if kind == 'lost':
+    if lost and set(lost) <= set(ev['popped_by_unheld']):
+      return MECH_GET_NOWAIT_UNHELD
+    timed_out = ((ev['starved_put'] or {}).get('what') == 'put() timed out'
+                 or (ev['starved_get'] or {}).get('what') == 'dequeue timed out')
+    return handshake if handshake and timed_out else generic
+  if kind == 'producer_no_return' and (ev['starved_put'] or {}).get('what') == 'put() timed out':
+    return handshake
+  return generic
+
+
+def analyse_poll(case, sched, log):
+  """Oracle of the polling cases: the fault-free oracle; adds the evidence + keys."""
+  problems = analyse(case, sched, log)
+  ev = poll_evidence(case, sched, log)
+  got = {(e[2], e[3]) for e in log if e[0] == 'recv'}
+  lost = sorted({(p, i) for p in range(case['P']) for i in range(case['lens'][p])} - got)
+  return [(kind, detail, classify_poll(case, kind, detail, ev, lost)) for kind, detail in problems], ev
